@@ -33,6 +33,7 @@ type thread struct {
 	label  string // hook at which it is parked ("" = running or not yet parked)
 	parked bool
 	done   bool
+	child  bool          // goroutine started by the code under test (not by the harness)
 	gate   chan struct{} // released by the scheduler
 }
 
@@ -48,6 +49,7 @@ type scheduler struct {
 	pid    gen.PID
 	name   gen.Atom
 	queues []any
+	objs   []any // further monitored objects (meta-process under test)
 
 	spawnerGid uint64
 	stalled    string
@@ -71,6 +73,11 @@ func (s *scheduler) monitored(label string, obj any, g uint64) bool {
 		return s.name != "" && o.Name == s.name
 	}
 	for _, q := range s.queues {
+		if obj == q {
+			return true
+		}
+	}
+	for _, q := range s.objs {
 		if obj == q {
 			return true
 		}
@@ -99,13 +106,13 @@ func (s *scheduler) hook(label string, obj any) {
 	t := s.byGid[g]
 	if t == nil {
 		// a goroutine we have not seen: it must be an announced child
-		if label != "run.start" && label != "kill.term.start" {
+		if s.expect <= 0 {
 			s.stalled = fmt.Sprintf("unknown goroutine %d arrived at hook %q", g, label)
 			s.cond.Broadcast()
 			s.mu.Unlock()
 			return
 		}
-		t = &thread{tid: len(s.threads), gid: g, gate: make(chan struct{}, 1)}
+		t = &thread{tid: len(s.threads), gid: g, child: true, gate: make(chan struct{}, 1)}
 		s.threads = append(s.threads, t)
 		s.byGid[g] = t
 		s.expect--
@@ -200,10 +207,11 @@ func (s *scheduler) grant(tid int) (enabled bool, ok bool) {
 		s.mu.Unlock()
 		return false, true
 	}
-	if t.label == "run.spawn" || t.label == "kill.spawn" {
+	if t.label == "run.spawn" || t.label == "kill.spawn" || t.label == "meta.spawn" || t.label == "meta.s.spawnh" {
 		s.expect++
 	}
-	endsGoroutine := t.label == "run.exit" || t.label == "kill.term.exit"
+	endsGoroutine := t.label == "run.exit" || t.label == "kill.term.exit" || t.label == "meta.h.exit" || t.label == "meta.s.exit" ||
+		(t.label == "meta.hc.exit" && t.child)
 	t.parked = false
 	if endsGoroutine {
 		t.done = true
